@@ -88,7 +88,7 @@ InContract(e) ==
     [] e.a = "SetRich" -> InPos(e.p) /\ e.runs # <<>>
     [] e.a = "SetError" -> InPos(e.p) /\ TextOk(e) /\ e.tc \in EcmaErrors
     [] e.a = "CopyValue" -> InPos(e.p) /\ InPos(e.q)
-    [] e.a = "CopyCell" -> InPos(e.p) /\ InPos(e.q) /\ CanCopyCell(cells, e.p)
+    [] e.a = "CopyCell" -> InPos(e.p) /\ InPos(e.q)
     [] e.a = "SaveLoad" -> CanSave(cells) /\ e.w \in {"std", "light"}
     [] OTHER -> FALSE
 
@@ -128,7 +128,9 @@ NumTextOk(o) == o.hasnum /\ Str(o.valc) = o.val /\ IsDecimal(o.valc) /\ o.reread
 XVal(c, ov) == IF FinNum(c) THEN ov.val ELSE Proj(c).val
 
 (* the values the calls return *)
-ExpRet(e, want)  == IF e.a = "GetLazy" THEN XVal(want[e.p], e.obs[e.p].v) ELSE ""
+ExpRet(e, want)  == IF e.a = "GetLazy" THEN XVal(want[e.p], e.obs[e.p].v)
+                    ELSE IF e.a = "CopyCell" /\ ~CanCopyCell(cells, e.p) THEN "nocell"      \* (the driver found no source)
+                    ELSE ""
 ExpRetB(e)       == IF e.a = "Remove" THEN cells[e.p].here ELSE FALSE
 (* after a reload a cell without value and formula may be there or not: its presence is taken from the log *)
 Adopt(want, e) ==
